@@ -133,12 +133,19 @@ pub fn cases(tier: &str, seed: u64) -> Vec<Case> {
     let reps = if thorough { 12 } else { 1 };
     for rep in 0..reps {
         for kind in 0..N_KINDS {
+            // (the sweep below touches every byte: a message of moderate size, drawn again when the generator made a
+            // record of kilobytes - those are for the other blocks)
             let mut p = Packet::new_reply(g.rng.next() as u16);
-            if g.rng.chance(1, 2) { p.questions.push(g.question()); }
-            p.answers.push(g.rr_of(kind));
-            if g.rng.chance(1, 2) { p.additional_records.push(g.rr_of(kind)); }
-            if g.rng.chance(1, 4) { *p.opt_mut() = Some(g.opt()); }
+            for _attempt in 0..12 {
+                p = Packet::new_reply(g.rng.next() as u16);
+                if g.rng.chance(1, 2) { p.questions.push(g.question()); }
+                p.answers.push(g.rr_of(kind));
+                if g.rng.chance(1, 2) { p.additional_records.push(g.rr_of(kind)); }
+                if g.rng.chance(1, 4) { *p.opt_mut() = Some(g.opt()); }
+                if p.build_bytes_vec().map(|b| b.len() <= 1200).unwrap_or(false) { break; }
+            }
             let plain = p.build_bytes_vec().unwrap();
+            if plain.len() > 4000 { continue; }
             let comp = p.build_bytes_vec_compressed().unwrap();
             let tag = format!("type:{}", KIND_NAMES[kind]);
             for bytes in [&plain, &comp] {
